@@ -37,7 +37,7 @@ PRIMS = {f"PrimFloat.{n}" for n in ("float", "add", "sub", "mul", "div", "sqrt",
                                     "div", "mod", "compare", "head0", "tail0")}
 
 SIG_F11 = "C16:F11 AverageLearner.loss(real=False) ZeroDivisionError with pending points and no data"
-SIG_F13 = "C16:F13 AverageLearner1D.tell_many_at_point counts a seed already known at x twice and overwrites its sample"
+SIG_F21 = "C16:F21 AverageLearner1D.tell_many_at_point counts a seed already known at x twice and overwrites its sample"
 
 PREAMBLE = """From Coq Require Import ZArith PrimFloat List. Import ListNotations.
 From AV Require Import Base.Prelude Base.FloatUtil Model.AvgNum Run.AvgRun.
@@ -381,7 +381,7 @@ def gen_avg_cfg(rng):
 # AverageLearner1D
 # ======================================================================
 def probe_dedup() -> bool:
-    """Does tell_many_at_point ignore a seed already known at x?  (F13 repaired?)"""
+    """Does tell_many_at_point ignore a seed already known at x?  (F21 repaired?)"""
     from adaptive import AverageLearner1D
     l = AverageLearner1D(lambda sx: 0.0, (-1, 1), min_samples=3)
     l.tell((0, 0.5), 1.0)
@@ -433,7 +433,7 @@ class D1Oracle:
         self.t = lambda df: float(scipy.stats.t.ppf(1 - cfg["alpha"], df=df))
         self.told: dict[float, dict[int, float]] = {}
         self.errors = []
-        self.f13 = None
+        self.f21 = None
         self.active = True
         self.stats = {"asks_while_short": 0, "asks_to_short_abscissa": 0, "asks_free": 0, "err_checked": 0}
 
@@ -479,7 +479,7 @@ class D1Oracle:
             # did the batch path treat the known seed as tell does (ignore it)?
             for x, d in self.told.items():
                 if l._number_samples.get(x) != len(d) or dict(l._data_samples.get(x, {})) != d:
-                    self.f13 = (x, dict(l._data_samples.get(x, {})), l._number_samples.get(x), d)
+                    self.f21 = (x, dict(l._data_samples.get(x, {})), l._number_samples.get(x), d)
                     self.active = False
                     return
         ms = self.cfg["min_samples"]
@@ -550,7 +550,7 @@ def d1_drive(cfg, rng, maxlen, dedup, concrete=None, observe_every=1):
     steps = []
     lo, hi = cfg["bounds"]
     grid = [lo + (hi - lo) * i / 8 for i in range(9)]
-    info = {"batch": 0, "repeat_seed": 0, "ooo_seed": 0, "f13_trigger": False, "tm_err": 0}
+    info = {"batch": 0, "repeat_seed": 0, "ooo_seed": 0, "f21_trigger": False, "tm_err": 0}
 
     def known_seed_in(x, seeds):
         return x in l._data_samples and any(s in l._data_samples[x] for s in seeds)
@@ -613,7 +613,7 @@ def d1_drive(cfg, rng, maxlen, dedup, concrete=None, observe_every=1):
                 info["tm_err"] += 1
             op = ("tell_many", trip, hints)
         if trig:
-            info["f13_trigger"] = True
+            info["f21_trigger"] = True
         orc.check(l, batch_known_seed=trig)
         o = d1_obs(l) if (len(steps) % observe_every == 0 or op[0] != "tell") else None
         steps.append((op, out, o))
@@ -782,6 +782,36 @@ def shard_size(cases, target_bytes=1.5e6):
     return max(4, min(200, int(len(cases) * target_bytes / total)))
 
 
+def coq_cases_balanced(chk, tag, ctype, cases, metas, check_fn, legal_fn):
+    """chk.coq_cases on a deterministic shuffle of the cases (so that every shard has about the
+    average size), with a serial retry of shards whose coqc was killed (memory pressure from
+    other jobs on the machine).  Returns (mismatches as (meta, step), legal count, errors)."""
+    import random
+    import re
+    from ..core import coqc_file, split_evals
+    order = list(range(len(cases)))
+    random.Random(12345).shuffle(order)
+    sh = shard_size(cases)
+    mism, legal, errors = chk.coq_cases(tag, PREAMBLE, ctype, [cases[i] for i in order], check_fn, legal_fn, shard=sh)
+    left = []
+    for e in errors:
+        m = re.match(rf"({tag}_(\d+)\.v): rc=(-9|137|-11|124)", e)
+        if not m:
+            left.append(e)
+            continue
+        f = chk.work / m.group(1)
+        rc, out, _ = coqc_file(f, 1800)
+        if rc != 0:
+            left.append(f"{f.name}: rc={rc} (after serial retry): {out[-400:]}")
+            continue
+        parts = split_evals(out)
+        k = int(m.group(2)) * sh
+        mism += [(k + c, st) for c, st in C.parse_pairs(parts[0])]
+        legal += C.parse_nat(parts[1])
+        chk.extra["shards_retried_serially"] = chk.extra.get("shards_retried_serially", 0) + 1
+    return sorted((order[c], st) for c, st in mism), legal, left
+
+
 def jsonable_ops(steps):
     return json.loads(json.dumps([list(s[0]) for s in steps], default=lambda o: repr(o)))
 
@@ -801,7 +831,7 @@ def run(chk: Check) -> int:
 
     chk.fail = fail_limited
     guard, dedup = probe_guard(), probe_dedup()
-    chk.log(f"implementation probes: F11 repaired={guard}  F13 repaired={dedup}")
+    chk.log(f"implementation probes: F11 repaired={guard}  F21 repaired={dedup}")
 
     # ------------------------------------------------------------ AverageLearner
     na = 350 if quick else 2500
@@ -864,8 +894,7 @@ def run(chk: Check) -> int:
             steps, orc, sqx = avg_drive(xcfg, None, 0, concrete=ops)
             add_avg(xcfg, steps, orc, sqx, "exhaustive-len4")
             exhaustive_avg += 1
-    mism, reached, errors = chk.coq_cases("avg", PREAMBLE, "acase", cases, "acheck", "a_reaches_min",
-                                          shard=shard_size(cases))
+    mism, reached, errors = coq_cases_balanced(chk, "avg", "acase", cases, metas, "acheck", "a_reaches_min")
     for e in errors:
         chk.broke("correspondence", "Model/Avg.v cases could not be evaluated", e)
     for c, s in mism[:5]:
@@ -882,7 +911,7 @@ def run(chk: Check) -> int:
     cases1, metas1 = [], []
     hist1 = {"ask": 0, "tell": 0, "tell_many_at": 0, "tell_many": 0}
     st1 = {"asks_while_short": 0, "asks_to_short_abscissa": 0, "asks_free": 0, "err_checked": 0,
-           "batch": 0, "repeat_seed": 0, "ooo_seed": 0, "f13_trigger_cases": 0, "tell_many_valueerror": 0,
+           "batch": 0, "repeat_seed": 0, "ooo_seed": 0, "f21_trigger_cases": 0, "tell_many_valueerror": 0,
            "twin_compared_cases": 0, "twin_batches": 0, "max_points": 0, "max_samples_at_point": 0}
 
     def add_d1(cfg, steps, orc, info, l, origin, twin=True):
@@ -896,7 +925,7 @@ def run(chk: Check) -> int:
             st1[k] += orc.stats[k]
         for k in ("batch", "repeat_seed", "ooo_seed"):
             st1[k] += info[k]
-        st1["f13_trigger_cases"] += info["f13_trigger"]
+        st1["f21_trigger_cases"] += info["f21_trigger"]
         st1["tell_many_valueerror"] += info["tm_err"]
         st1["max_points"] = max(st1["max_points"], len(l.data))
         st1["max_samples_at_point"] = max([st1["max_samples_at_point"]] + list(l._number_samples.values()))
@@ -905,11 +934,11 @@ def run(chk: Check) -> int:
             chk.fail("C16:1d_counts", "data / _data_samples / _number_samples / error do not have the same abscissae", rep)
         for clause, msg in orc.errors[:1]:
             chk.fail(f"C16:{clause}", f"AverageLearner1D({ {k: cfg[k] for k in ('min_samples', 'max_samples', 'alpha', 'delta', 'ns')} }): {msg}", rep)
-        if orc.f13 is not None:
-            x, held, cnt, told = orc.f13
-            chk.fail(SIG_F13, f"after a batched tell with a seed already known at x={x}: _number_samples={cnt}, "
+        if orc.f21 is not None:
+            x, held, cnt, told = orc.f21
+            chk.fail(SIG_F21, f"after a batched tell with a seed already known at x={x}: _number_samples={cnt}, "
                      f"samples held {held}, samples told (first value per seed) {told}", rep)
-        elif twin and not info["f13_trigger"]:
+        elif twin and not info["f21_trigger"]:
             msg, nb = twin_compare(cfg, steps)
             if nb:
                 st1["twin_compared_cases"] += 1
@@ -926,12 +955,12 @@ def run(chk: Check) -> int:
             d["cfg"]["bounds"] = tuple(d["cfg"]["bounds"])
             steps, orc, info, l = d1_drive(d["cfg"], None, 0, dedup, concrete=d["ops"])
             add_d1(d["cfg"], steps, orc, info, l, f.name)
-    # the minimal F13 history, always
-    f13cfg = gen_d1_cfg(chk.rng("f13"), True)
-    f13cfg.update({"bounds": (-1.0, 1.0), "min_samples": 3})
-    steps, orc, info, l = d1_drive(f13cfg, None, 0, dedup, concrete=[
+    # the minimal F21 history, always
+    f21cfg = gen_d1_cfg(chk.rng("f21"), True)
+    f21cfg.update({"bounds": (-1.0, 1.0), "min_samples": 3})
+    steps, orc, info, l = d1_drive(f21cfg, None, 0, dedup, concrete=[
         ("tell", 0, 0.5, 1.0), ("tell", 1, 0.5, 2.0), ("tell_many_at", 0.5, [(1, 10.0), (2, 3.0)])])
-    add_d1(f13cfg, steps, orc, info, l, "f13-minimal")
+    add_d1(f21cfg, steps, orc, info, l, "f21-minimal")
     for k in range(nd):
         rng = chk.rng("avg1d", k)
         cfg = gen_d1_cfg(rng, allow_known=(k % 5 == 0))
@@ -953,8 +982,7 @@ def run(chk: Check) -> int:
                     steps, orc, info, l = d1_drive(xcfg, None, 0, dedup, concrete=ops)
                     add_d1(xcfg, steps, orc, info, l, "exhaustive-perm5", twin=(k > 0))
                     exhaustive_1d += 1
-    mism1, legal1, errors1 = chk.coq_cases("avg1d", PREAMBLE, "dcase", cases1, "dcheck", "dlegal",
-                                           shard=shard_size(cases1))
+    mism1, legal1, errors1 = coq_cases_balanced(chk, "avg1d", "dcase", cases1, metas1, "dcheck", "dlegal")
     for e in errors1:
         chk.broke("correspondence", "Model/Avg1D.v cases could not be evaluated", e)
     for c, s in mism1[:5]:
@@ -969,7 +997,7 @@ def run(chk: Check) -> int:
         "avg_op_histogram": hist, "avg_value_families": fams, "avg_oracle_stats": stats,
         "avg1d_cases_compared_in_coq": len(cases1), "avg1d_mismatches": len(mism1),
         "avg1d_legal_histories_per_coq": legal1, "avg1d_op_histogram": hist1, "avg1d_stats": st1,
-        "implementation_probes": {"F11_repaired": guard, "F13_repaired": dedup},
+        "implementation_probes": {"F11_repaired": guard, "F21_repaired": dedup},
         "oracle_failures_by_signature": by_sig,
         "reading_note": "undersampled-first is checked in the weaker reading: while some evaluated abscissa has fewer "
                         "than min_samples samples every request goes to an evaluated abscissa of _undersampled_points "
@@ -1002,8 +1030,8 @@ def replay(doc) -> int:
         else:
             r["cfg"]["bounds"] = tuple(r["cfg"]["bounds"])
             steps, orc, info, l = d1_drive(r["cfg"], None, 0, dedup, concrete=r["ops"])
-            msgs = orc.errors[:3] + ([("F13", orc.f13)] if orc.f13 else [])
-            if not msgs and not info["f13_trigger"]:
+            msgs = orc.errors[:3] + ([("F21", orc.f21)] if orc.f21 else [])
+            if not msgs and not info["f21_trigger"]:
                 m, _ = twin_compare(r["cfg"], steps)
                 msgs = [("batch", m)] if m else []
         print("replayed", r.get("kind"), len(steps), "ops ->", msgs or "oracle silent")
